@@ -348,6 +348,10 @@ def _macro_from_constants(m, init):
         if isinstance(n, ast.Assign) and len(n.targets) == 1 and isinstance(n.targets[0], ast.Name) \
                 and isinstance(n.value, ast.Constant) and isinstance(n.value.value, str):
             mconst[n.targets[0].id] = n.value.value
+    meths = {}
+    for c in m.tree.body:
+        if isinstance(c, ast.ClassDef) and c.name == "ispec_ia32":
+            meths = {x.name: x for x in c.body if isinstance(x, ast.FunctionDef) and x.name != "__init__"}
     seen, todo, consts = set(), [init], []
     while todo:
         fn = todo.pop()
@@ -361,6 +365,10 @@ def _macro_from_constants(m, init):
             if isinstance(n, ast.Call) and isinstance(n.func, ast.Name) and n.func.id in funcs and n.func.id not in seen:
                 seen.add(n.func.id)
                 todo.append(funcs[n.func.id])
+            if isinstance(n, ast.Call) and isinstance(n.func, ast.Attribute) and isinstance(n.func.value, ast.Name) and n.func.value.id in ("self", "cls", "ispec_ia32") \
+                    and n.func.attr in meths and ("." + n.func.attr) not in seen:
+                seen.add("." + n.func.attr)
+                todo.append(meths[n.func.attr])
     tmpl = sorted(set(c for c in consts if "Mod(" in c and c.count("%s") == 1))
     full = sorted(set(c for c in consts if "Mod(" in c and "%" not in c))
     regs = sorted(set(c for c in consts if _re.fullmatch(r"[A-Za-z_]+\(3\)", c)))
